@@ -90,11 +90,12 @@ theorem reapProcess_removes (u pid : Nat) (L : List Nat) (st : Option Nat) (s : 
     simp only [Bool.not_eq_true', List.contains_eq_mem, decide_eq_false_iff_not] at hc
     exact hc hx'
   · erw [if_neg hc]
-    have h1 : PidsSub u (L.filter (· ≠ pid)) (popPid u pid s).2 := by
+    have h0 : PidsSub u L (callHook u "before_reap" s).2 := callHook_pres (pidsSubLeafW u L) u _ s h
+    have h1 : PidsSub u (L.filter (· ≠ pid)) (popPid u pid (callHook u "before_reap" s).2).2 := by
       intro x hx
       rw [getW_popPid] at hx
       obtain ⟨hx1, hx2⟩ := List.mem_filter.mp hx
-      exact List.mem_filter.mpr ⟨h x hx1, hx2⟩
+      exact List.mem_filter.mpr ⟨h0 x hx1, hx2⟩
     exact reapTail_pres (pidsSubLeafW u _) u pid st _ h1
 
 /-- the body of the loop in `reap_processes` -/
